@@ -86,7 +86,8 @@ from props_dst import DstProp  # noqa: E402
 
 _reg(DstProp(['Ea.C20.both_given_verbatim', 'Ea.C20.required_hour', 'Ea.C20.affected_hour_rejected',
               'Ea.C20.accepted_outside_reported_hours', 'Ea.C20.find_time_probes', 'Ea.C20.validity_sound', 'Ea.C20.scan_orders',
-              'Ea.C20.accepted_safe_all_year', 'Ea.zEU70_year_regular', 'Ea.C20.accepted_safe_all_year_zEU70']))
+              'Ea.C20.accepted_safe_all_year', 'Ea.zEU70_year_regular', 'Ea.C20.accepted_safe_all_year_zEU70',
+              'Ea.two_trans_validity', 'Ea.twoZone_year_regular', 'Ea.zUS21_year_regular', 'Ea.C20.accepted_safe_all_year_zUS21']))
 
 from props_sun import SunProp  # noqa: E402
 
